@@ -49,7 +49,7 @@ func (c12) Phases() []kit.Phase {
 			return 14000
 		}},
 		{Name: "enum-seq6", Exhaustive: true,
-			Space: "all sequences of length 1..6 over {Next,Scan,Err,Close} on one Solutions x 14 query shapes x 8 schedule seeds",
+			Space: "all sequences of length 1..6 over {Next,Scan,Err,Close} on one Solutions x 15 query shapes x 8 schedule seeds",
 			Count: func(tier string) uint64 {
 				if tier == "thorough" {
 					return uint64(c12EnumCount()) * 8
@@ -87,7 +87,7 @@ type c12Scenario struct {
 	Ops     []c12Op    `json:"ops"`
 }
 
-var c12Kinds = []string{"member", "between", "clauses", "det", "alt-tail", "error", "throw", "undefined", "findall", "repeat", "nat", "catch-all", "catch-err", "call", "once"}
+var c12Kinds = []string{"member", "between", "clauses", "det", "alt-tail", "error", "throw", "undefined", "findall", "repeat", "nat", "catch-all", "catch-err", "call", "once", "cut-only", "true-only", "cut-or"}
 
 func c12Shapes() []c12Query {
 	// the 12 shapes used by the enumeration phase
@@ -95,7 +95,7 @@ func c12Shapes() []c12Query {
 		{Kind: "member", K: 0}, {Kind: "member", K: 1}, {Kind: "member", K: 3}, {Kind: "between", K: 2},
 		{Kind: "clauses", K: 2}, {Kind: "det", K: 1}, {Kind: "alt-tail", K: 1}, {Kind: "error", K: 0},
 		{Kind: "error", K: 2}, {Kind: "throw", K: 1}, {Kind: "repeat"}, {Kind: "nat"},
-		{Kind: "catch-all", K: 2}, {Kind: "catch-err", K: 1},
+		{Kind: "catch-all", K: 2}, {Kind: "catch-err", K: 1}, {Kind: "cut-only"},
 	}
 }
 
@@ -268,6 +268,13 @@ func c12Build(q c12Query, id string) (text string, at func(i int) c12Item) {
 			items = append(items, T("a(1)"), A("X=1"))
 		}
 		items = append(items, end)
+	case "cut-only", "true-only", "cut-or":
+		// queries made of control constructs only: one answer that binds nothing, no predicate is called
+		text = map[string]string{"cut-only": "!", "true-only": "true", "cut-or": "(! ; true)"}[q.Kind]
+		if k >= 3 {
+			text = text + ", " + text
+		}
+		items = []c12Item{A(""), end}
 	case "repeat":
 		text = fmt.Sprintf("repeat, tick(%s, r)", id)
 		return text, func(i int) c12Item {
@@ -358,6 +365,9 @@ func (c12) Exec(r *kit.Run) {
 	sched := kit.NewSched(r, sc.Policy)
 	var curOp, curDetail string
 	var status string
+	finalErr := make([]string, nq) // Err() of healthy queries read after every goroutine has finished
+	var allSols []*prolog.Solutions
+	var allCtxs []*kit.SimCtx
 
 	leftover, other := kit.Bubble(r.T, func() {
 		interp := prolog.New(strings.NewReader(""), io.Discard)
@@ -380,6 +390,7 @@ func (c12) Exec(r *kit.Run) {
 		sched.Go(func() {
 			sols := make([]*prolog.Solutions, nq)
 			ctxs := make([]*kit.SimCtx, nq)
+			allSols, allCtxs = sols, ctxs
 			for i := range sc.Queries {
 				ctxs[i] = kit.NewSimCtx(sc.Queries[i].FireAt, context.Canceled)
 
@@ -590,6 +601,17 @@ func (c12) Exec(r *kit.Run) {
 		if status == "cap" {
 			sched.Stop()
 		}
+		if status == "done" {
+			// every goroutine has finished: Err() is stable now. A query that was closed before its end, whose context was
+			// never cancelled and which had not raised, has no terminating error.
+			for i, m := range models {
+				if allSols != nil && allSols[i] != nil && !allCtxs[i].Fired() && (!m.ended || m.endErr == "nil") {
+					if err := allSols[i].Err(); err != nil {
+						finalErr[i] = kit.CanonErr(err)
+					}
+				}
+			}
+		}
 	})
 
 	r.Steps(sched.StepCount)
@@ -606,6 +628,9 @@ func (c12) Exec(r *kit.Run) {
 			r.Fail("leak", "search-goroutine-alive-after-Close", "search goroutine(s) %v still alive after every Solutions was closed (leftover blocked goroutines in bubble: %v)", alive, leftover)
 		}
 		for i, m := range models {
+			if finalErr[i] != "" {
+				r.Fail("answer-mismatch", "Err-after-Close-of-healthy-query", "query %d (%s) was closed before its end, no error occurred and its context was not cancelled, yet Err() reports %s once the search goroutine has finished", i, sc.Queries[i].Text, finalErr[i])
+			}
 			if m.frozen != nil && !kit.SameList(ticks[i], *m.frozen) {
 				r.Fail("ran-after-close", "goal-ran-after-Close", "query %d (%s): goals run in total %v, but only %v had run when it was closed", i, sc.Queries[i].Text, ticks[i], *m.frozen)
 			}
